@@ -56,7 +56,7 @@ class ConstFolder:
     if isinstance(e, ast.Name):
       if e.id in env:
         return env[e.id]
-      return self._name(scope, e, depth)
+      return self._name(scope, e, depth, env)
     if isinstance(e, ast.Attribute):
       r = self.repo.resolve(scope, e)
       if r.kind == 'local' and len(r.bindings) == 1 and r.bindings[0].value is not None and r.scope is not None:
@@ -112,7 +112,7 @@ class ConstFolder:
         return UNKNOWN
     return v
 
-  def _name(self, scope: Scope, e: ast.Name, depth: int):
+  def _name(self, scope: Scope, e: ast.Name, depth: int, env: Optional[Dict[str, Any]] = None):
     sc = scope.lookup_scope(e.id)
     if sc is None:
       return UNKNOWN
@@ -127,7 +127,8 @@ class ConstFolder:
         return self.eval(sc.parent, d, {}, depth + 1)
       return UNKNOWN
     if b.kind == 'assign' and b.value is not None:
-      v = self.eval(sc, b.value, {}, depth + 1)
+      # parameter overrides (env) stay visible while folding other locals of the same function
+      v = self.eval(sc, b.value, dict(env) if (env and sc.kind == 'function') else {}, depth + 1)
       if b.index:
         return self._index(v, b.index)
       return v
